@@ -151,8 +151,10 @@ CLAIMED["C08"] = (
     "build_expression builds from the AST has exactly Python's value, TypeError and left-to-right short-circuit "
     "read sequence, for every expression of the grammar (n-ary and/or, not, names, literals, the six "
     "comparisons - chained comparisons excepted, where the library reads the middle operand once per "
-    "comparison) and every environment; and for EVERY expression, chains included, the same value and the same "
-    "TypeError as Python.  Tied to /repo three-way: random and small-exhaustive expression trees are spelled canonically "
+    "comparison) and every environment; for EVERY expression, chains included, the same value and the same "
+    "TypeError as Python; and the complete statement for chains, read sequence included: the tree evaluates "
+    "exactly like Python evaluates the expression in which each chain a op1 b op2 c is written (a op1 b) and "
+    "(b op2 c) (identity on chain-free expressions).  Tied to /repo three-way: random and small-exhaustive expression trees are spelled canonically "
     "(evaluated by CPython's own eval as reference) and in a random alternative spelling (! ^ v, 0-2 spaces, "
     "redundant parentheses, names containing v / not / and / or) given to a real transition as cond or unless, "
     "the names being properties / methods / attributes of machine / model / listener, under several valuations "
@@ -256,9 +258,12 @@ CLAIMED["C12"] = (
     "callback logs with their arguments and the firing of guarded transitions are compared.  Isolation pairs: two "
     "instances of one class with different listener objects are driven alternately and A's trace must equal A "
     "driven alone.  Probes: a coroutine listener added to a sync machine (known finding D11); a listener attached to "
-    "only one of a machine and its shallow / deep copy.",
+    "only one of a machine and its shallow / deep copy; guard expressions whose names a late listener has too "
+    "(before / after a copy); a callback name that is also an event, provided by model and listeners too; an "
+    "`unless` name provided by the model and a constructor listener (known finding D25, also as a refuted "
+    "theorem: providers of one resolution round are and-ed before the expected value is applied).",
     "Coq proof (provider parity, guard over all providers, attach-idempotence) + differential correspondence + isolation pairs",
-    "DESIGN.md 5 C12", "Multi-name boolean expressions whose names live on different resolution rounds (D19) are not generated.")
+    "DESIGN.md 5 C12", "Multi-name boolean expressions whose names live on different resolution rounds (D19) are not generated.  Known findings D11, D25.")
 
 CLAIMED["C17"] = (
     "Theorems (Properties/C17.v): a clone taken at any idle point of a machine that has a state is the "
@@ -277,7 +282,9 @@ CLAIMED["C17"] = (
     "Coq proof (clone = same configuration and registry, suffix equivalence) + differential correspondence with alternating suffixes",
     "DESIGN.md 5 C17",
     "Partial: physical non-sharing of Python objects is checked (identity tests, diverging suffixes), not "
-    "proved.  Two genuine defects repaired (fix: b431cc9, fix: b1b38e6).")
+    "proved.  Three genuine defects repaired (fix: b431cc9, fix: b1b38e6, fix: 20edca7 equal / unhashable listeners "
+    "lost by the copy); known finding D25 (a clone regroups `unless` providers of different resolution rounds: the "
+    "suffix-equivalence theorem holds for machines resolved in one round, and is refuted by a witness otherwise).")
 
 CLAIMED["C16"] = (
     "Theorems (Properties/C16.v): in a process of several machine objects (instances of one or of different "
@@ -343,8 +350,13 @@ CLAIMED["C15"] = (
     ".unless def f, the same on explicit Event objects, and @(t1 | t2) def event(self) declaring an event with its on action; "
     "IntEnum sources with aliases): the real classes must have the same states, event set and ordered per-state "
     "transitions (target, internal, events, guards, validators, callbacks) and give the same observations on the "
-    "common history; the baseline is compared with the engine model in coqc.",
-    "Coq proof (creation-order semantics of the declaration styles) + pairwise differential correspondence of renderings",
+    "common history; the baseline is compared with the engine model in coqc.  The behavioural half is a theorem "
+    "as well: the engine reads a declaration only through the ordered transition list of each source state, so "
+    "two class bodies that agree on those lists - in whatever global order the calls created the transitions - "
+    "give the same observations on every history of operations, for every meaning of the keyword arguments, "
+    "every provider set and callback behaviour; instantiated for the body written state by state instead of "
+    "event by event (also rendered by the correspondence).",
+    "Coq proof (creation-order semantics of the declaration styles; behaviour depends only on per-state transition lists) + pairwise differential correspondence of renderings",
     "DESIGN.md 5 C15",
     "Partial: decorator styles, States / enum / inheritance / Event-object styles are "
     "covered by the correspondence only (the Coq model covers the transition-creating and event-attaching calls).")
